@@ -35,6 +35,7 @@ macro_rules! newtype_dom {
     ($d:ident, $e:ident, $n:expr) => {
         new_type_domain!(pub $d = $n);
         new_type_domain!(pub $e from $d);
+        impl NewT for $d {}
         impl Dom for $d {
             type Sib = $e;
             fn sib_idx(i: $d) -> $e {
@@ -836,6 +837,11 @@ impl<const K0: usize> StaticKind for SU1<K0> {
     fn dkeys(&self, _w: &mut String) -> Res {
         Res::Na
     }
+    fn resume(&self, k: usize, w: &mut String) {
+        w.push_str(" ix");
+        dump_resume(w, k, &last_of(&[K0]), &|| MArr1::<u64, K0>::indexes());
+        w.push_str(" ky na");
+    }
 }
 impl<const K0: usize, const K1: usize> StaticKind for SU2<K0, K1> {
     fn indexes(&self, w: &mut String) {
@@ -846,6 +852,11 @@ impl<const K0: usize, const K1: usize> StaticKind for SU2<K0, K1> {
     }
     fn dkeys(&self, _w: &mut String) -> Res {
         Res::Na
+    }
+    fn resume(&self, k: usize, w: &mut String) {
+        w.push_str(" ix");
+        dump_resume(w, k, &last_of(&[K0, K1]), &|| MArr2::<u64, K0, K1>::indexes());
+        w.push_str(" ky na");
     }
 }
 impl<const K0: usize, const K1: usize, const K2: usize> StaticKind for SU3<K0, K1, K2> {
@@ -858,8 +869,16 @@ impl<const K0: usize, const K1: usize, const K2: usize> StaticKind for SU3<K0, K
     fn dkeys(&self, _w: &mut String) -> Res {
         Res::Na
     }
+    fn resume(&self, k: usize, w: &mut String) {
+        w.push_str(" ix");
+        dump_resume(w, k, &last_of(&[K0, K1, K2]), &|| MArr3::<u64, K0, K1, K2>::indexes());
+        w.push_str(" ky na");
+    }
 }
-impl<A: Dom> StaticKind for SL1<A> {
+impl<A: Dom> StaticKind for SL1<A>
+where
+    A::Idx: Item,
+{
     fn indexes(&self, w: &mut String) {
         dump_enum(w, &mut MArrD1::<A, u64>::indexes().map(|i| vec![un::<A>(i)]));
     }
@@ -870,9 +889,18 @@ impl<A: Dom> StaticKind for SL1<A> {
     fn dkeys(&self, w: &mut String) -> Res {
         dkeys_axis::<A>(w);
         Res::Ok
+    }    fn resume(&self, k: usize, w: &mut String) {
+        let last = last_of(&[A::LEN]);
+        w.push_str(" ix");
+        dump_resume(w, k, &last, &|| MArrD1::<A, u64>::indexes());
+        w.push_str(" ky");
+        dump_resume(w, k, &last, &|| <MArrD1<A, u64> as Keys<A::Idx>>::keys());
     }
 }
-impl<A: Dom, B: Dom> StaticKind for SL2<A, B> {
+impl<A: Dom, B: Dom> StaticKind for SL2<A, B>
+where
+    (A::Idx, B::Idx): Item,
+{
     fn indexes(&self, w: &mut String) {
         dump_enum(w, &mut MArrD2::<A, B, u64>::indexes().map(|(i, j)| vec![un::<A>(i), un::<B>(j)]));
     }
@@ -887,9 +915,18 @@ impl<A: Dom, B: Dom> StaticKind for SL2<A, B> {
         dkeys_axis::<A>(w);
         dkeys_axis::<B>(w);
         Res::Ok
+    }    fn resume(&self, k: usize, w: &mut String) {
+        let last = last_of(&[A::LEN, B::LEN]);
+        w.push_str(" ix");
+        dump_resume(w, k, &last, &|| MArrD2::<A, B, u64>::indexes());
+        w.push_str(" ky");
+        dump_resume(w, k, &last, &|| <MArrD2<A, B, u64> as Keys<(A::Idx, B::Idx)>>::keys());
     }
 }
-impl<A: Dom, B: Dom, C: Dom> StaticKind for SL3<A, B, C> {
+impl<A: Dom, B: Dom, C: Dom> StaticKind for SL3<A, B, C>
+where
+    (A::Idx, B::Idx, C::Idx): Item,
+{
     fn indexes(&self, w: &mut String) {
         dump_enum(
             w,
@@ -909,6 +946,12 @@ impl<A: Dom, B: Dom, C: Dom> StaticKind for SL3<A, B, C> {
         dkeys_axis::<B>(w);
         dkeys_axis::<C>(w);
         Res::Ok
+    }    fn resume(&self, k: usize, w: &mut String) {
+        let last = last_of(&[A::LEN, B::LEN, C::LEN]);
+        w.push_str(" ix");
+        dump_resume(w, k, &last, &|| MArrD3::<A, B, C, u64>::indexes());
+        w.push_str(" ky");
+        dump_resume(w, k, &last, &|| <MArrD3<A, B, C, u64> as Keys<(A::Idx, B::Idx, C::Idx)>>::keys());
     }
 }
 
